@@ -149,3 +149,52 @@ Proof.
     rewrite g_lookup_eq in H. cbn [module_of_ids m_code_file m_debug_file m_debug_identifier m_code_identifier option_map] in H.
     apply (lookup_cache_has_component _ _ _ _ _ _ H); [apply breakpad_text_nonempty | apply breakpad_text_hex].
 Qed.
+
+(* ---- everything the property says, in one statement, with no hypothesis on the identifiers --------------- *)
+Lemma lookup_needs_debug_id : forall k cf df cid l, lookup k cf df None cid = Some l -> False.
+Proof.
+  intros k cf df cid l H. destruct k; cbn [lookup lookup_gen] in H.
+  - unfold breakpad_sym_lookup_gen in H. destruct df; discriminate.
+  - unfold binary_lookup_gen in H. destruct cid; [destruct df|]; discriminate.
+  - unfold extra_debuginfo_lookup_gen in H. destruct df; discriminate.
+Qed.
+
+Lemma full_property : forall code_file debug_file d raw_code_id kind l,
+  bytes code_file -> opt_bytes debug_file ->
+  g_lookup (module_of_ids code_file debug_file d raw_code_id) kind = Some l ->
+  safe_rel (cache_rel l) /\ safe_rel (server_rel l) /\
+  (forall style root, is_prefix root (join style root (cache_rel l)) = true) /\
+  (forall root, root <> [] ->
+     comps_prefix (posix_comps root) (posix_comps (posix_join root (cache_rel l))) = true /\
+     Forall (fun c => c <> dotdot) (posix_comps (cache_rel l)) /\
+     exists t, path_parent (posix_comps (posix_join root (cache_rel l))) = Some (posix_comps root ++ t) /\
+               Forall (fun c => c <> dotdot) t) /\
+  (forall base_path, exists r, g_request_path base_path (server_rel l) = Some r /\
+                               is_prefix (base_dir base_path) r = true) /\
+  (forall l', g_moz_lookup l = Ret l' ->
+     cache_rel l' = cache_rel l /\ safe_rel (server_rel l') /\
+     forall base_path, exists r, g_request_path base_path (server_rel l') = Some r /\
+                                 is_prefix (base_dir base_path) r = true).
+Proof.
+  intros cf df d raw k l B1 B2 H.
+  pose proof (module_of_ids_hex cf df d raw) as MH.
+  assert (MB : mv_bytes (module_of_ids cf df d raw)) by (split; assumption).
+  destruct (src_relative _ k l MH H) as [Sc Ss].
+  destruct (src_contained _ k l MB MH H) as [J [U M]].
+  destruct d as [d|].
+  2:{ exfalso. rewrite g_lookup_eq in H. exact (lookup_needs_debug_id _ _ _ _ _ H). }
+  split; [exact Sc|]. split; [exact Ss|]. split; [exact J|]. split.
+  - intros root N. destruct (cache_paths_below_root cf df d raw k l root H N) as [[E F] [t [P [_ T]]]].
+    split; [rewrite E; apply comps_prefix_app|]. split; [exact F|]. exists t. split; assumption.
+  - split; [exact U|]. intros l' Hm. destruct (M l' Hm) as [Ec R]. split; [exact Ec|]. split; [|exact R].
+    rewrite g_moz_eq in Hm. exact (proj1 (moz_safe l l' Ss Hm)).
+Qed.
+
+Lemma full_property_code_info : forall code_file debug_file d raw_code_id p base_path,
+  bytes code_file -> opt_bytes debug_file ->
+  g_code_info_breakpad_sym_lookup (module_of_ids code_file debug_file d raw_code_id) = Some p ->
+  safe_rel p /\ exists r, g_request_path base_path p = Some r /\ is_prefix (base_dir base_path) r = true.
+Proof.
+  intros cf df d raw p bp B1 B2 H.
+  apply (src_code_info_contained (module_of_ids cf df d raw) p bp); [split; assumption | apply module_of_ids_hex | exact H].
+Qed.
